@@ -28,6 +28,12 @@ C['C12']=("Static analysis: the key length emitted by trie.Prefix2bin128 and the
 C['C14']=("Static analysis: error-only defaults of every filter/annotation/policy dispatch, the per-condition decision table of filterHit (constant propagation over its CFG), operand agreement inside the name and subtag branches, first-line-wins / co-append / index agreement in FilterAndAnnotate, and error flow to the control-plane constructor.",
  "Trusted: go/types, go/cfg, internal/fdt. Not decided: regex/keyword matching on values; validation of filter parts that no node reaches (lazy by design).",
  "static analysis: exhaustiveness (error-only defaults) + finite decision table by constant propagation over go/cfg + loop back-edge reachability + sibling operand agreement")
+C['C15']=("Static analysis: the fallback chain table of selectionNetworkTypes (constant propagation over its CFG, 8 abstract inputs), per-iteration alive-set consultation of every fallback loop, guards of the other-family retry and single-node last resort, policy exhaustiveness and fixed-index range check, threading and comparison of the excluded node, co-mutation of the alive list with its index map under the mutex, and the provenance of getter results.",
+ "Trusted: go/types, go/cfg, internal/fdt. Not decided: the tolerance relation between consecutive selections (seed C15-m1 is out of reach), latency arithmetic, histories.",
+ "static analysis: finite decision table by constant propagation over go/cfg + exhaustiveness + guard dominance + who-writes / co-mutation rules")
+C['C16']=("Static analysis: the failure-threshold table of markUnavailableInternal (constant propagation over its CFG: increment, compare, store for each protocol x probe/traffic; forced path), reset siblings under the collection lock, unconditional clearing of the per-address death counter on success, edge guards of every alive-transition callback, cancellation gates on every path to the counters, the suppression gate, the single writer of the kernel connectivity map, the group 'no best node => latency reset' invariant behind the group alive callback, and snapshot/restore field symmetry.",
+ "Trusted: go/types, go/cfg, internal/fdt. Not decided: counting over histories, escalation timing, the reload floor.",
+ "static analysis: finite decision table by constant propagation over go/cfg + sibling agreement + guard dominance + who-may-write + state-invariant pairing rule")
 def chk(pid):
     text,note,tech=C[pid]
     return {"property_id":pid,"quick_cmd":f"bin/daecheck -p {pid} -tier quick","thorough_cmd":f"bin/daecheck -p {pid} -tier thorough","evidence_file":f"/verif/evidence/{pid}.json",
